@@ -172,14 +172,25 @@ trait EncodingVersion: Sized {
     ) -> XTypesResult<()>;
 }
 
-fn get_discriminator_id_as_i32(v: &DynamicData) -> XTypesResult<i32> {
+/// The value of the union discriminator as it is compared with the case labels.
+/// `None` is a value that no (32 bit) label can denote
+fn get_discriminator_id_as_i32(v: &DynamicData) -> XTypesResult<Option<i32>> {
+    use crate::xtypes::data_storage::DataStorage;
     Ok(match v.get_value(0)? {
-        crate::xtypes::data_storage::DataStorage::UInt8(x) => *x as i32,
-        crate::xtypes::data_storage::DataStorage::Int8(x) => *x as i32,
-        crate::xtypes::data_storage::DataStorage::UInt16(x) => *x as i32,
-        crate::xtypes::data_storage::DataStorage::Int16(x) => *x as i32,
-        crate::xtypes::data_storage::DataStorage::Int32(x) => *x,
-        crate::xtypes::data_storage::DataStorage::UInt32(x) => *x as i32,
+        DataStorage::Boolean(x) => Some(*x as i32),
+        DataStorage::Char8(x) => Some(*x as i32),
+        DataStorage::UInt8(x) => Some(*x as i32),
+        DataStorage::Int8(x) => Some(*x as i32),
+        DataStorage::UInt16(x) => Some(*x as i32),
+        DataStorage::Int16(x) => Some(*x as i32),
+        DataStorage::Int32(x) => Some(*x),
+        DataStorage::UInt32(x) => Some(*x as i32),
+        DataStorage::Int64(x) => i32::try_from(*x).ok(),
+        DataStorage::UInt64(x) => i32::try_from(*x).ok(),
+        // Enumerated discriminator: the value is held by the nested enum data
+        DataStorage::ComplexValue(x) if x.r#type().get_kind() == TypeKind::ENUM => {
+            get_discriminator_id_as_i32(x)?
+        }
         _ => return Err(XTypesError::InvalidType),
     })
 }
@@ -341,7 +352,7 @@ impl EncodingVersion for EncodingVersion1 {
         for member_index in 0..dynamic_type.get_member_count() {
             let member = dynamic_type.get_member_by_index(member_index)?;
             // Deserialize the member based on its discriminator
-            if member.descriptor.label.contains(&disc_id) {
+            if disc_id.is_some_and(|id| member.descriptor.label.contains(&id)) {
                 return Self::deserialize_mmember(deserializer, member, dynamic_data);
             }
             if member.descriptor.is_default_label {
@@ -543,7 +554,7 @@ impl EncodingVersion for EncodingVersion2 {
         for member_index in 0..dynamic_type.get_member_count() {
             let member = dynamic_type.get_member_by_index(member_index)?;
             // Deserialize the member based on its discriminator
-            if member.descriptor.label.contains(&disc_id) {
+            if disc_id.is_some_and(|id| member.descriptor.label.contains(&id)) {
                 return Self::deserialize_mmember(deserializer, member, dynamic_data);
             }
             if member.descriptor.is_default_label {
@@ -1157,7 +1168,7 @@ impl<'a, E: EndiannessRead, V: EncodingVersion> XTypesDeserializer<'a, E, V> {
         for member_index in 0..dynamic_type.get_member_count() {
             let member = dynamic_type.get_member_by_index(member_index)?;
             // Deserialize the member based on its discriminator
-            if member.descriptor.label.contains(&disc_id) {
+            if disc_id.is_some_and(|id| member.descriptor.label.contains(&id)) {
                 return self.deserialize_fmember(member, dynamic_data);
             }
             if member.descriptor.is_default_label {
